@@ -45,11 +45,11 @@ impl OperationControl for Atom {
         let mut builder = CodePointInversionListBuilder::new();
         if case_blind {
             // create a character class that has all case variants of the first character
+            // (the closure does not contain the character itself)
             let cm = CaseMapCloser::new();
             cm.add_case_closure_to(self.atom[0], &mut builder);
-        } else {
-            builder.add_char(self.atom[0]);
         }
+        builder.add_char(self.atom[0]);
         CharacterClass::new(builder.build())
     }
 
